@@ -40,11 +40,22 @@ def check(ctx):
     # ---------------- R1
     ctx.rule("C12.R1", "visit_with_conv arguments use the conversion attributes of the visitor's own direction", floor=20)
     n_sites = 0
+    # wrappers: methods that forward their own parameters to visit_with_conv (treated like visit_with_conv at their call sites)
+    wrappers = {"visit_with_conv"}
+    for fi in model.functions.values():
+        if fi.cls is None:
+            continue
+        for c in ast.walk(fi.node):
+            if isinstance(c, ast.Call) and isinstance(c.func, ast.Attribute) and c.func.attr == "visit_with_conv" and norm(c.func.value) == "self" \
+                    and len(c.args) == 2 and all(isinstance(a, ast.Name) and a.id in fi.params for a in c.args) and fi.name != "visit_with_conv":
+                wrappers.add(fi.name)
     for fi in model.functions.values():
         owner = model.enclosing_class(fi)
         for c in walk_no_nested(fi.node, include_lambda=True):
-            if not (isinstance(c, ast.Call) and isinstance(c.func, ast.Attribute) and c.func.attr == "visit_with_conv"):
+            if not (isinstance(c, ast.Call) and isinstance(c.func, ast.Attribute) and c.func.attr in wrappers):
                 continue
+            if fi.name in wrappers and fi.name != "visit_with_conv" and all(isinstance(a, ast.Name) for a in c.args):
+                continue  # the forwarding call inside a wrapper
             recv = c.func.value
             cls_q = None
             if isinstance(recv, ast.Name) and recv.id == "self" and owner is not None:
